@@ -57,6 +57,34 @@ def check_case(case):
     fail = None
     with M.use_mode(mode):
         try:
+            if kind == "shift_limited":
+                # a recurrence cut by the constructor's max_point / min_point:
+                # shifting there and back must give the same value again
+                down = spec["fmt"] == 4 and n is None
+                extra = {"min_point" if down else "max_point":
+                         M.make_point(case["limit"])}
+                r = RC.build(spec, extra)
+                ld = M.make_duration(case["shift"])
+                r2 = (r + ld) if case["op"] != "d+r" else (ld + r)
+                back = r2 - ld
+                text = RC.render(spec) + " limited at " + M.fmt_kw(case["limit"])
+                m0 = instants(cm, list(itertools.islice(iter(r), K)))
+                mb = instants(cm, list(itertools.islice(iter(back), K)))
+                if not (back == r and r == back):
+                    fail = "shift_back_limited: ((%s) + d) - d = %s is not " \
+                           "equal to the original (limits %s / %s -> %s / %s)" \
+                           % (text, M.sp(back), M.sp(r.min_point),
+                              M.sp(r.max_point), M.sp(back.min_point),
+                              M.sp(back.max_point))
+                elif hash(back) != hash(r):
+                    fail = "shift_back_limited_hash: %s" % text
+                elif m0 != mb:
+                    fail = "shift_back_limited_members: %s iterates %r, " \
+                           "shifted there and back %r" % (
+                               text, [float(x) for x in m0],
+                               [float(x) for x in mb])
+                return Outcome(fail=fail, nontrivial=True,
+                               classes=classes + ["limited"])
             r = RC.build(spec)
             text = RC.render(spec)
             if kind == "shift":
@@ -198,7 +226,8 @@ def check_case(case):
 
 @st.composite
 def st_case(draw):
-    kind = draw(st.sampled_from(["shift", "shift", "unequal", "respell",
+    kind = draw(st.sampled_from(["shift", "shift", "shift_limited", "unequal",
+                                 "respell",
                                  "roundtrip"]))
     if kind == "shift":
         mode, spec = draw(RC.st_spec())
@@ -208,6 +237,24 @@ def st_case(draw):
             sd = {"hours": 1}
         return {"kind": kind, "mode": mode, "spec": spec, "shift": sd,
                 "op": draw(st.sampled_from(["r+d", "d+r", "r-(-d)"]))}
+    if kind == "shift_limited":
+        mode, spec = draw(RC.st_spec(max_reps=8))
+        sd = draw(G.st_exact_duration_kw(
+            max_days=draw(st.sampled_from([1, 40, 800])), signs="any"))
+        if "weeks" in sd and not sd["weeks"]:
+            sd = {"hours": 1}
+        anchor = spec.get("start") or spec.get("end")
+        down = spec["fmt"] == 4 and spec["reps"] is None
+        limit = dict(anchor, year=anchor["year"] + (-2 if down else 2))
+        for k, top in (("week_of_year", 51), ("day_of_year", 360),
+                       ("day_of_month", 28)):
+            if k in limit:
+                limit[k] = min(limit[k], top)
+        if limit.get("hour_of_day") == 24:
+            limit["hour_of_day"] = 0
+        return {"kind": kind, "mode": mode, "spec": dict(spec, via="ctor"),
+                "shift": sd, "limit": limit,
+                "op": draw(st.sampled_from(["r+d", "d+r"]))}
     if kind == "roundtrip":
         mode, spec = draw(RC.st_spec())
         case = {"kind": kind, "mode": mode, "spec": spec}
